@@ -243,6 +243,10 @@ def run(ctx):
                   'argument() hands out a stored object (`%s`): arguments are completed in place later (%s), so the name / interface / labels found for one line show up on every later line that gets the same object'
                   % (norm(shared[0].outcome[1])[:80] if shared else '', ', '.join(sorted({w.func.short for w in inplace}))[:120]))
     ctx.floor('C01.14', n_ret_arg, 8, 'returning paths of argument()')
+    # ... and nothing the decoder builds a message from may be a memoised (shared) mutable object: object references are completed in
+    # place too (set_type for wl_registry.bind, resolve)
+    from .common import check_no_memoised_mutables
+    check_no_memoised_mutables(ctx, 'C01.14', [repo.func('parse.message')], 'line')
     if unknown_ret and not shared:
         raise AnalysisError('C01: argument() returns %s, which is not an argument constructor call' % norm(unknown_ret[0].outcome[1])[:80])
     arg_paths = [p for p in arg_paths if p not in shared]
@@ -561,7 +565,8 @@ def run(ctx):
                   'connection id <- %s' % ct[:100], 'connection id is %s' % ct[:120])
         # timestamp: ms -> s
         t = norm(args.get('abs_time'))
-        tsok = bool(re.match(r"^float\(%s\.replace\(',', '\.'\)\) (?:/ 1000(?:\.0*)?|\* (?:0\.001|1e-0?3))$" % Gx('timestamp'), t))
+        from .common import ms_to_s_term_ok
+        tsok = ms_to_s_term_ok(t, p, Gx('timestamp'))
         ctx.check(tsok, 'C01.9', 'field:abs_time:%s' % attr, site_msg, 'abs_time <- %s (milliseconds -> seconds)' % t[:120],
                   'abs_time is %s: not the timestamp group, comma-normalised, scaled by exactly 1/1000' % t[:160])
 
